@@ -15,13 +15,13 @@ done
 export GOFLAGS=-mod=mod GOPROXY=off GOSUMDB=off GOTOOLCHAIN=local
 wt=/tmp/mt/$name
 rm -rf $wt; mkdir -p /tmp/mt
-git -C /repo worktree add -q --detach $wt ${MUT_BASE:-HEAD} || exit 2
-cleanup() { git -C /repo worktree remove --force $wt 2>/dev/null; rm -rf $wt; }
+flock /tmp/mt/.wtlock git -C /repo worktree add -q --detach $wt ${MUT_BASE:-HEAD} || exit 2
+cleanup() { flock /tmp/mt/.wtlock git -C /repo worktree remove --force $wt 2>/dev/null; rm -rf $wt; }
 trap cleanup EXIT
 if [ -n "$demo" ]; then
   place=$(head -1 "$demo" | sed -n 's/^\/\/ place at: *//p')
   [ -z "$place" ] && { echo "demo has no place-at line"; exit 2; }
-  cp "$demo" "$wt/$place"
+  mkdir -p "$(dirname "$wt/$place")"; cp "$demo" "$wt/$place"
   pkg=$(dirname "$place")
   tname=$(basename "$place")
   echo "== demo WITHOUT change:"; (cd $wt && go test -vet=off -count=1 -run '(?i)verifdemo' ${DEMOFLAGS:-} ./$pkg 2>&1 | tail -3)
